@@ -42,6 +42,11 @@ type WOp struct {
 	K    int    `json:"k,omitempty"`   // drain: how many
 	Msgs []WMsg `json:"msgs,omitempty"`
 	End  string `json:"end,omitempty"` // nil error cancel
+	// par: operations (sub, emit, end) issued by concurrent callers; Sched is
+	// the list of choices the scheduler makes among the goroutines parked at a
+	// synchronisation point (choice mod number parked; exhausted = the first).
+	Par   []WOp `json:"par,omitempty"`
+	Sched []int `json:"sched,omitempty"`
 }
 
 // A WMsg is one rtnetlink message of an emitted batch.
@@ -93,6 +98,7 @@ func execWPlan(t *testing.T, p *WPlan, res *verifsim.Result, after func(ev []ver
 			time.Sleep(time.Duration(p.Offset))
 		}
 		context.VerifCancelSeed = p.Cancel
+		context.VerifSetMapSeed(p.Cancel ^ uint64(p.Offset))
 		lg := verifsim.NewLog(time.Now())
 		w := NewWatcher()
 		emitC := make(chan []rtnetlink.Message)
@@ -113,8 +119,12 @@ func execWPlan(t *testing.T, p *WPlan, res *verifsim.Result, after func(ev []ver
 		}
 		ctx, cancel := context.WithCancel(context.Background())
 		watchDone := make(chan struct{})
+		sc := &sched{parts: map[int]*participant{}}
+		verifsim.YieldHook = sc.yield
+		defer func() { verifsim.YieldHook = nil }()
 		go func() {
 			defer close(watchDone)
+			sc.register("watcher")
 			err := w.Watch(ctx)
 			e := verifsim.Event{K: "watch.return"}
 			if err != nil {
@@ -231,6 +241,13 @@ func execWPlan(t *testing.T, p *WPlan, res *verifsim.Result, after func(ev []ver
 					violate("C19.close", "watch-hangs", "Watch did not return after its source ended (%s)", op.End)
 					leaked = true
 				}
+			case "par":
+				if ended {
+					continue
+				}
+				if !runPar(op, sc, lg, w, &subs, &model, &ended, emitC, ackC, endC, watchDone, cancel, res) {
+					leaked = true
+				}
 			case "watch2":
 				// a second Watch on the same Watcher must be refused
 				func() {
@@ -293,6 +310,362 @@ func execWPlan(t *testing.T, p *WPlan, res *verifsim.Result, after func(ev []ver
 	})
 }
 
+// ------------------------------------------------------- concurrent callers
+
+// A participant is a goroutine whose progress through the instrumented
+// synchronisation points the scheduler decides.
+type participant struct {
+	id     int
+	name   string
+	wake   chan struct{}
+	parked bool
+	done   bool
+	site   string
+}
+
+// sched parks every participant at every yield point while a "par" operation
+// runs, and releases one at a time.
+type sched struct {
+	active bool
+	parts  map[int]*participant // by goroutine id
+	order  []*participant
+	ticks  int // progress counter: yields reached, operations finished
+}
+
+func (s *sched) register(name string) *participant {
+	p := &participant{id: len(s.order), name: name, wake: make(chan struct{})}
+	s.parts[verifsim.Goid()] = p
+	s.order = append(s.order, p)
+	return p
+}
+
+func (s *sched) yield(site string) {
+	if !s.active {
+		return
+	}
+	p := s.parts[verifsim.Goid()]
+	if p == nil {
+		return
+	}
+	p.parked, p.site = true, site
+	s.ticks++
+	<-p.wake
+	p.parked = false
+}
+
+// settle lets every runnable goroutine run until it parks, blocks or ends.
+// Workers have one P and are never preempted, so a goroutine that yields the
+// processor gets it back only after all others have stopped; blocking on a
+// sync.Mutex is invisible to synctest.Wait, which is why it is not used here.
+func (s *sched) settle() {
+	for calm := 0; calm < 4; {
+		before := s.ticks
+		runtime.Gosched()
+		if s.ticks == before {
+			calm++
+		} else {
+			calm = 0
+		}
+	}
+}
+
+type parCall struct {
+	op       *WOp
+	p        *participant
+	inv, ret int // event sequence numbers of invocation and return (0 = never returned)
+	skipped  bool
+	sub      int // index of the subscription a "sub" call created
+	ch       <-chan Change
+}
+
+type subObs struct {
+	got    []Change
+	closed bool
+}
+
+// runPar runs one group of concurrent calls under the scheduler and checks the
+// outcome against every sequential order of the calls that respects the order
+// in which they were seen to return and start: the outcome must be that of at
+// least one of them (linearizability against the bounded-FIFO model). It
+// returns false if goroutines are stuck.
+func runPar(op *WOp, sc *sched, lg *verifsim.Log, w *Watcher, subs *[]<-chan Change, model *[]*modelSub, ended *bool,
+	emitC chan []rtnetlink.Message, ackC chan struct{}, endC chan error, watchDone chan struct{}, cancel func(), res *verifsim.Result) bool {
+	calls := make([]*parCall, len(op.Par))
+	base := len(*subs)
+	nsub := 0
+	sc.active = true
+	finished := 0
+	for i := range op.Par {
+		i := i
+		c := &parCall{op: &op.Par[i]}
+		calls[i] = c
+		if c.op.Kind == "sub" {
+			c.sub = base + nsub
+			nsub++
+		}
+		started := make(chan struct{})
+		go func() {
+			c.p = sc.register(fmt.Sprintf("%s#%d", c.op.Kind, i))
+			close(started)
+			sc.yield("start")
+			c.inv = lg.Add(verifsim.Event{K: "par.inv", S: c.op.Kind, V: int64(i), If: c.op.If})
+			switch c.op.Kind {
+			case "sub":
+				c.ch = w.Subscribe(c.op.If, Change(c.op.Mask))
+			case "emit":
+				var msgs []rtnetlink.Message
+				for _, m := range c.op.Msgs {
+					msgs = append(msgs, m.message())
+				}
+				select {
+				case emitC <- msgs:
+					<-ackC
+				case <-watchDone:
+					c.skipped = true
+				}
+			case "end":
+				switch c.op.End {
+				case "cancel":
+					cancel()
+				case "error":
+					endC <- errors.New("netlink receive: no buffer space available")
+				default:
+					endC <- nil
+				}
+				<-watchDone
+			}
+			e := verifsim.Event{K: "par.ret", S: c.op.Kind, V: int64(i)}
+			if c.skipped {
+				e.Err = "skipped"
+			}
+			c.ret = lg.Add(e)
+			c.p.done = true
+			finished++
+			sc.ticks++
+		}()
+		<-started
+	}
+	stuck := false
+	for step, k := 0, 0; ; step++ {
+		sc.settle()
+		if finished == len(calls) {
+			break
+		}
+		var parked []*participant
+		for _, p := range sc.order {
+			if p.parked {
+				parked = append(parked, p)
+			}
+		}
+		if len(parked) == 0 || step > 5000 {
+			stuck = true
+			break
+		}
+		pick := 0
+		if k < len(op.Sched) {
+			pick = op.Sched[k] % len(parked)
+			if pick < 0 {
+				pick = -pick
+			}
+			k++
+		}
+		p := parked[pick]
+		lg.Add(verifsim.Event{K: "sched", S: p.name, Ref: len(parked), F: p.site})
+		p.wake <- struct{}{}
+	}
+	sc.active = false
+	if stuck {
+		var who []string
+		for _, c := range calls {
+			if !c.p.done {
+				who = append(who, c.p.name)
+			}
+		}
+		res.Violate("C19.concurrent", "deadlock", "concurrent %v never returned and no goroutine can make progress (calls in the group: %s)", who, parDesc(op))
+		return false
+	}
+	// the watcher may still be parked on its way out of notify or Watch
+	for again := true; again; {
+		again = false
+		sc.settle()
+		for _, p := range sc.order {
+			if p.parked {
+				p.wake <- struct{}{}
+				again = true
+			}
+		}
+	}
+
+	// observation: everything every subscriber (old and new) can receive now
+	for _, c := range calls {
+		if c.op.Kind == "sub" {
+			*subs = append(*subs, c.ch)
+		}
+	}
+	obs := make([]subObs, len(*subs))
+	for i, ch := range *subs {
+	drain:
+		for n := 0; n < 64; n++ {
+			select {
+			case v, ok := <-ch:
+				if !ok {
+					obs[i].closed = true
+					break drain
+				}
+				obs[i].got = append(obs[i].got, v)
+			default:
+				break drain
+			}
+		}
+		lg.Add(verifsim.Event{K: "par.obs", V: int64(i), S: fmt.Sprint(obs[i].got), Ref: b2i(obs[i].closed)})
+	}
+
+	// reference: some sequential order must explain the observation
+	order := make([]int, 0, len(calls))
+	used := make([]bool, len(calls))
+	tried, why := 0, ""
+	var search func() bool
+	search = func() bool {
+		if len(order) == len(calls) {
+			tried++
+			ok, msg := parExplains(calls, order, *model, *ended, len(*subs), obs)
+			if !ok && why == "" {
+				why = msg
+			}
+			return ok
+		}
+		for i, c := range calls {
+			if used[i] {
+				continue
+			}
+			// c may come next only if no unplaced call returned before c started
+			okNext := true
+			for j, d := range calls {
+				if j != i && !used[j] && d.ret != 0 && d.ret < c.inv {
+					okNext = false
+				}
+			}
+			if !okNext {
+				continue
+			}
+			used[i] = true
+			order = append(order, i)
+			if search() {
+				return true
+			}
+			order = order[:len(order)-1]
+			used[i] = false
+		}
+		return false
+	}
+	if !search() {
+		res.Violate("C19.concurrent", "not-linearizable", "no sequential order of the concurrent calls {%s} explains what the subscribers hold afterwards (%d orders tried; e.g. %s)", parDesc(op), tried, why)
+	}
+	res.Probe("concurrent_group")
+	// continue from the observed state
+	for _, c := range calls {
+		if c.op.Kind == "sub" {
+			*model = append(*model, &modelSub{ifn: c.op.If, mask: Change(c.op.Mask)})
+		}
+		if c.op.Kind == "end" {
+			*ended = true
+		}
+	}
+	for i, m := range *model {
+		m.q = nil
+		if obs[i].closed {
+			m.q = nil
+		}
+		m.afterEnd = *ended && !obs[i].closed
+	}
+	return true
+}
+
+func b2i(b bool) int {
+	if b {
+		return 1
+	}
+	return 0
+}
+
+func parDesc(op *WOp) string {
+	var d []string
+	for _, c := range op.Par {
+		switch c.Kind {
+		case "sub":
+			d = append(d, fmt.Sprintf("Subscribe(%s,%s)", c.If, Change(c.Mask)))
+		case "emit":
+			var m []string
+			for _, x := range c.Msgs {
+				m = append(m, fmt.Sprintf("%s:%d", x.If, x.Oper))
+			}
+			d = append(d, "notify["+strings.Join(m, " ")+"]")
+		case "end":
+			d = append(d, "end("+c.End+")")
+		}
+	}
+	return strings.Join(d, ", ")
+}
+
+// parExplains applies the calls in the given order to a copy of the model and
+// compares the result with the observation.
+func parExplains(calls []*parCall, order []int, model []*modelSub, ended bool, nsubs int, obs []subObs) (bool, string) {
+	type ms struct {
+		ifn    string
+		mask   Change
+		q      []Change
+		on     bool // subscribed
+		closed bool
+		dead   bool // subscribed after the end: never notified, never closed
+	}
+	st := make([]ms, nsubs)
+	for i, m := range model {
+		st[i] = ms{ifn: m.ifn, mask: m.mask, q: append([]Change(nil), m.q...), on: true, dead: m.afterEnd}
+	}
+	for _, ci := range order {
+		c := calls[ci]
+		switch c.op.Kind {
+		case "sub":
+			st[c.sub] = ms{ifn: c.op.If, mask: Change(c.op.Mask), on: true, dead: ended}
+		case "emit":
+			if ended != c.skipped {
+				return false, fmt.Sprintf("notify placed %s the end but it was %s", map[bool]string{true: "after", false: "before"}[ended], map[bool]string{true: "refused", false: "delivered"}[c.skipped])
+			}
+			if ended {
+				continue
+			}
+			for _, m := range c.op.Msgs {
+				ch, ok := changeOfOper(m.Oper)
+				if m.NotLink || m.NoAttr || !ok {
+					continue
+				}
+				for i := range st {
+					s := &st[i]
+					if s.on && !s.dead && s.ifn == m.If && s.mask&ch != 0 && len(s.q) < 8 {
+						s.q = append(s.q, ch)
+					}
+				}
+			}
+		case "end":
+			ended = true
+			for i := range st {
+				if st[i].on && !st[i].dead {
+					st[i].closed = true
+				}
+			}
+		}
+	}
+	for i := range st {
+		if fmt.Sprint(st[i].q) != fmt.Sprint(obs[i].got) && !(len(st[i].q) == 0 && len(obs[i].got) == 0) {
+			return false, fmt.Sprintf("subscriber %d (%s mask %s) would hold %v, holds %v", i, st[i].ifn, st[i].mask, st[i].q, obs[i].got)
+		}
+		if st[i].closed != obs[i].closed {
+			return false, fmt.Sprintf("subscriber %d: channel closed=%t, expected %t", i, obs[i].closed, st[i].closed)
+		}
+	}
+	return true, ""
+}
+
 // ---------------------------------------------------------------- generators
 
 const nMasks = 127
@@ -316,6 +689,9 @@ func c19Gen(rng *verifsim.RNG, idx int, tier string) any {
 			{Kind: "drain", Sub: 0, K: 2},
 		}
 		return p
+	}
+	if rng.Bool(0.45) {
+		return c19Concurrent(rng, p)
 	}
 	p.Class = "random"
 	ifs := []string{"eth0", "eth1", "wan0"}
@@ -357,6 +733,78 @@ func c19Gen(rng *verifsim.RNG, idx int, tier string) any {
 			p.Ops = append(p.Ops, WOp{Kind: "end", End: []string{"nil", "error", "cancel"}[rng.Intn(3)]})
 		default:
 			p.Ops = append(p.Ops, WOp{Kind: "watch2"})
+		}
+	}
+	return p
+}
+
+// c19Concurrent: a sequential prefix, then groups of calls made by concurrent
+// callers (Subscribe while a notification is being delivered, while watching
+// ends, while others subscribe) under a seeded schedule.
+func c19Concurrent(rng *verifsim.RNG, p *WPlan) *WPlan {
+	p.Class = "concurrent"
+	ifs := []string{"eth0", "eth1", "wan0"}
+	mask := func() uint {
+		switch rng.Intn(4) {
+		case 0:
+			return uint(LinkAny)
+		case 1:
+			return uint(LinkDown)
+		}
+		return uint(rng.Range(1, nMasks))
+	}
+	batch := func() []WMsg {
+		var msgs []WMsg
+		for j, k := 0, rng.Range(1, 5); j < k; j++ {
+			msgs = append(msgs, WMsg{If: ifs[rng.Intn(len(ifs))], Oper: int(operOf[allChanges[rng.Intn(7)]])})
+		}
+		return msgs
+	}
+	nsub := 0
+	for i, n := 0, rng.Range(0, 4); i < n; i++ {
+		p.Ops = append(p.Ops, WOp{Kind: "sub", If: ifs[rng.Intn(len(ifs))], Mask: mask()})
+		nsub++
+	}
+	if rng.Bool(0.5) {
+		// fill somebody's buffer first
+		for i, n := 0, rng.Range(1, 10); i < n; i++ {
+			p.Ops = append(p.Ops, WOp{Kind: "emit", Msgs: batch()})
+		}
+	}
+	groups := rng.Range(1, 3)
+	for g := 0; g < groups; g++ {
+		var par []WOp
+		withEnd := g == groups-1 && rng.Bool(0.35)
+		emits := rng.Range(1, 2)
+		if withEnd {
+			emits = rng.Range(0, 1) // the watcher must never find two sources ready at once
+			p.Class = "concurrent+end"
+		}
+		for i := 0; i < emits; i++ {
+			par = append(par, WOp{Kind: "emit", Msgs: batch()})
+		}
+		for i, n := 0, rng.Range(1, 3); i < n; i++ {
+			par = append(par, WOp{Kind: "sub", If: ifs[rng.Intn(len(ifs))], Mask: mask()})
+			nsub++
+		}
+		if withEnd {
+			par = append(par, WOp{Kind: "end", End: []string{"nil", "error", "cancel"}[rng.Intn(3)]})
+		}
+		// shuffle so that the start order is not tied to the kind
+		for i := len(par) - 1; i > 0; i-- {
+			j := rng.Intn(i + 1)
+			par[i], par[j] = par[j], par[i]
+		}
+		var sch []int
+		for i, n := 0, rng.Range(0, 60); i < n; i++ {
+			sch = append(sch, rng.Intn(6))
+		}
+		p.Ops = append(p.Ops, WOp{Kind: "par", Par: par, Sched: sch})
+		if !withEnd && rng.Bool(0.5) {
+			p.Ops = append(p.Ops, WOp{Kind: "emit", Msgs: batch()})
+			if nsub > 0 {
+				p.Ops = append(p.Ops, WOp{Kind: "drain", Sub: rng.Intn(nsub), K: rng.Range(1, 10)})
+			}
 		}
 	}
 	return p
